@@ -100,6 +100,46 @@ func (e *e2) control(op *Op, ctx *OpCtx) (res Res) {
 		e.w.Colls = append(e.w.Colls, cs)
 		res.Val = uint64(len(e.w.Handles) - 1)
 		e.mu.Unlock()
+	case "PutDDoc", "DelDDoc", "View":
+		h := op.Handle
+		if h < 0 || h >= len(e.w.Colls) || op.Coll >= len(e.w.Colls[h]) || e.w.Colls[h][op.Coll] == nil {
+			res.Err = EClosed
+			return res
+		}
+		c := e.w.Colls[h][op.Coll].(*rosmar.Collection)
+		var err error
+		switch op.Kind {
+		case "PutDDoc":
+			err = c.PutDDoc(context.Background(), op.Key, buildDDoc(op.Xattrs))
+		case "DelDDoc":
+			err = c.DeleteDDoc(op.Key)
+		default:
+			var params map[string]any
+			_ = json.Unmarshal([]byte(*op.Body), &params)
+			var vr sgbucket.ViewResult
+			vr, err = c.View(context.Background(), op.Key, op.Path, params)
+			if err == nil {
+				res.Rows = rowsOf(vr)
+				res.Count = int64(len(vr.Rows))
+			}
+		}
+		res.Err = classify(err)
+		if err != nil {
+			res.ErrText = err.Error()
+		}
+	case "OpenOther":
+		// another bucket of the process is created, written once and deleted again while the clients run
+		name := fmt.Sprintf("%s-other%d", e.w.Name, e.seq.Add(1))
+		b, err := rosmar.OpenBucket(rosmar.InMemoryURL, name, rosmar.CreateOrOpen)
+		res.Err = classify(err)
+		if err != nil {
+			res.ErrText = err.Error()
+			return res
+		}
+		if ds := b.DefaultDataStore(); ds != nil {
+			_ = ds.SetRaw("other", 0, nil, []byte("x"))
+		}
+		_ = b.CloseAndDelete(context.Background())
 	case "Sleep":
 		e.s.Sleep(time.Duration(op.Dur) * time.Second)
 	case "Yield":
